@@ -138,8 +138,11 @@ fn oracle_hash(kind: &str, le: bool, c: Class, sym: &[u8], strs: &[u8], name: &[
             Ok(s2) if s2 == *s => {}
             _ => return Err(format!("{}: returned symbol is not symtab[{}]", tag, i)),
         }
-        match strtab.get_raw(s.st_name as usize) {
-            Ok(n) if n == name => {}
+        // the name is read with an independent scan of the string-table bytes (not with the crate's own get_raw)
+        let off = s.st_name as usize;
+        let want: Option<&[u8]> = if strs.is_empty() || off > strs.len() { None } else { strs[off..].iter().position(|b| *b == 0).map(|k| &strs[off..off + k]) };
+        match want {
+            Some(n) if n == name => {}
             _ => return Err(format!("{}: returned symbol's name differs from the queried name", tag)),
         }
     }
@@ -497,16 +500,18 @@ fn oracle_file(spec: &str, queries: &str, data: &[u8], ann: &str) -> V {
                 (Err(e), true) => return Err(format!("C03: section {} range fits but error {}", i, show_err(e))),
             }
             // C03: string-table entries are the NUL-terminated runs of the section's own bytes
-            if sh.sh_type == abi::SHT_STRTAB && !compressed && fits {
-                if let Ok(t) = f.section_data_as_strtab(&sh) {
-                    let raw = &data[sh.sh_offset as usize..(sh.sh_offset + sh.sh_size) as usize];
+            if sh.sh_type == abi::SHT_STRTAB && fits {
+                // (for a section flagged SHF_COMPRESSED the view is laid over section_data's payload, behind the header)
+                if let (Ok(t), Ok((payload, _))) = (f.section_data_as_strtab(&sh), &r) {
+                    let raw: &[u8] = payload;
+                    let sh_base = within(data, raw).unwrap_or(sh.sh_offset as usize);
                     for off in [0usize, 1, 2, raw.len() / 2] {
                         let want: Option<&[u8]> = if raw.is_empty() || off > raw.len() { None } else {
                             raw[off..].iter().position(|b| *b == 0).map(|k| &raw[off..off + k])
                         };
                         match (t.get_raw(off), want) {
                             (Ok(g), Some(w)) => {
-                                if g != w || (!w.is_empty() && within(data, g) != Some(sh.sh_offset as usize + off)) {
+                                if g != w || (!w.is_empty() && within(data, g) != Some(sh_base + off)) {
                                     return Err(format!("C03: string-table entry at {} of section {} is not the file's bytes at sh_offset+{}", off, i, off));
                                 }
                             }
@@ -526,7 +531,7 @@ fn oracle_file(spec: &str, queries: &str, data: &[u8], ann: &str) -> V {
                 if f.section_data_as_notes(&sh).is_ok() {
                     return Err(format!("C20: notes view of section {} (type {}) not refused", i, sh.sh_type));
                 }
-            } else if let (Ok(it), Ok((d, None))) = (f.section_data_as_notes(&sh), &r) {
+            } else if let (Ok(it), Ok((d, _))) = (f.section_data_as_notes(&sh), &r) {
                 let b = Bases(vec![data]);
                 let got: Vec<String> = it.map(|n| show_note(&n, &b)).collect();
                 // reference walk over the raw section bytes, re-based to file offsets
@@ -536,27 +541,27 @@ fn oracle_file(spec: &str, queries: &str, data: &[u8], ann: &str) -> V {
                     .map(|s| rebase(&s, base))
                     .collect();
                 if got != want {
-                    return Err(format!("C14: notes of section {} differ from the reference walk || FAIL C03: note names/descriptors of section {} are not the ABI-designated windows of the section's bytes", i, i));
+                    return Err(format!("C14: notes of section {} differ from the reference walk || FAIL C03: note names/descriptors of section {} are not the ABI-designated windows of the section's bytes || FAIL C20: the notes view of section {} does not contain exactly the records decodable from section_data's bytes", i, i, i));
                 }
             }
             if sh.sh_type != abi::SHT_REL {
                 if f.section_data_as_rels(&sh).is_ok() {
                     return Err(format!("C20: rel view of section {} not refused", i));
                 }
-            } else if let (Ok(it), Ok((d, None))) = (f.section_data_as_rels(&sh), &r) {
+            } else if let (Ok(it), Ok((d, _))) = (f.section_data_as_rels(&sh), &r) {
                 let esz = match class { Class::ELF32 => 8, Class::ELF64 => 16 };
                 if it.count() != d.len() / esz {
-                    return Err(format!("C20: rel view of section {} does not yield the whole entries of its bytes", i));
+                    return Err(format!("C20: rel view of section {} does not yield the whole entries of its bytes || FAIL C03: the rel view of section {} is not laid over section_data's bytes", i, i));
                 }
             }
             if sh.sh_type != abi::SHT_RELA {
                 if f.section_data_as_relas(&sh).is_ok() {
                     return Err(format!("C20: rela view of section {} not refused", i));
                 }
-            } else if let (Ok(it), Ok((d, None))) = (f.section_data_as_relas(&sh), &r) {
+            } else if let (Ok(it), Ok((d, _))) = (f.section_data_as_relas(&sh), &r) {
                 let esz = match class { Class::ELF32 => 12, Class::ELF64 => 24 };
                 if it.count() != d.len() / esz {
-                    return Err(format!("C20: rela view of section {} does not yield the whole entries of its bytes", i));
+                    return Err(format!("C20: rela view of section {} does not yield the whole entries of its bytes || FAIL C03: the rela view of section {} is not laid over section_data's bytes", i, i));
                 }
             }
         }
@@ -793,9 +798,12 @@ fn bare_api_walk(data: &[u8]) {
     let _ = f.dynamic_symbol_table();
     if let Ok(Some(t)) = f.dynamic() { sink += t.iter().count() as u64; }
     if let Ok(Some(v)) = f.symbol_version_table() {
-        for i in 0..8 {
-            let _ = v.get_requirement(i);
-            if let Ok(Some(d)) = v.get_definition(i) { sink += d.names.count() as u64; }
+        // a few hundred queries on one table value: nothing may start allocating after the n-th lookup either
+        for _round in 0..25 {
+            for i in 0..8 {
+                let _ = v.get_requirement(i);
+                if let Ok(Some(d)) = v.get_definition(i) { sink += d.names.count() as u64; }
+            }
         }
     }
     if let Some(shdrs) = f.section_headers() {
@@ -929,6 +937,39 @@ pub fn oracle_alloc(line: &str) -> V {
                     _ => k += elf::gnu_symver::VerNeedAuxIterator::new(e, c, cnt as u16, off, &d).count(),
                 }
                 std::hint::black_box(k);
+            })
+        }
+        ["symver", le, cls, idxs, nc, dc, vs, nd, nds, df, dfs] => {
+            use elf::gnu_symver::*;
+            let (e, c) = (any_endian(*le == "1"), class_of(cls));
+            let (vsb, ndb, ndsb, dfb, dfsb) = (unhex(vs), unhex(nd), unhex(nds), unhex(df), unhex(dfs));
+            let ix: Vec<usize> = idxs.split('.').map(nat).collect();
+            count(&|| {
+                let needs = if *nc == "-" { None } else { Some((VerNeedIterator::new(e, c, nc.parse::<u64>().unwrap_or(0), 0, &ndb), StringTable::new(&ndsb))) };
+                let defs = if *dc == "-" { None } else { Some((VerDefIterator::new(e, c, dc.parse::<u64>().unwrap_or(0), 0, &dfb), StringTable::new(&dfsb))) };
+                let t = SymbolVersionTable::new(VersionIndexTable::new(e, c, &vsb), needs, defs);
+                let mut k = 0usize;
+                for _round in 0..3 {
+                    for i in &ix {
+                        if let Ok(Some(r)) = t.get_requirement(*i) { k += r.name.len(); }
+                        if let Ok(Some(d)) = t.get_definition(*i) { k += d.names.count(); }
+                    }
+                }
+                std::hint::black_box(k);
+            })
+        }
+        [kind @ ("sysvm" | "gnum"), le, cls, symhex, strhex, nameshex, hashhex] => {
+            let (e, c) = (any_endian(*le == "1"), class_of(cls));
+            let (sym, strs, hash) = (unhex(symhex), unhex(strhex), unhex(hashhex));
+            let names: Vec<Vec<u8>> = nameshex.split('.').map(unhex).collect();
+            let is_gnu = *kind == "gnum";
+            count(&|| {
+                let (symtab, strtab) = (SymbolTable::new(e, c, &sym), StringTable::new(&strs));
+                if is_gnu {
+                    if let Ok(t) = GnuHashTable::new(e, c, &hash) { for n in &names { let _ = std::hint::black_box(t.find(n, &symtab, &strtab)); } }
+                } else if let Ok(t) = SysVHashTable::new(e, c, &hash) {
+                    for n in &names { let _ = std::hint::black_box(t.find(n, &symtab, &strtab)); }
+                }
             })
         }
         ["strtab", off, hexd] => {
